@@ -157,6 +157,9 @@ def matrix_cases(tier, seed, stores=("local",)):
                 # put the variable first in its module
                 # some variables are named like Python builtins (legitimate shadowing at module level)
                 vname = {"int": "max", "str": "format", "list": "filter"}.get(kind) if (access == "bare" and same_module and pos in ("A", "h2", "B")) else None
+                if vname and p0["fns"][ids["main"]]["module"] != vmod:
+                    # ... while the entry function (another module, analysed first) calls the builtins of those names
+                    p0["fns"][ids["main"]]["uses_builtins"] = True
                 vid = gen.add_var(p0, vmod, vname or ("V_" + kind.upper()), kind)
                 p0["order"][vmod].remove(("var", vid))
                 p0["order"][vmod].insert(0, ("var", vid))
@@ -203,7 +206,7 @@ def matrix_cases(tier, seed, stores=("local",)):
                 d.update({"position": pos, "import_form": form, "layout": layout})
                 emit("import:%s/%s@%s" % (form, layout, pos), p0, p1, d)
     # D7: higher-order reference, lambda, nested def, class/method
-    for variant in ("ref", "lambda_call", "nested_def", "nested_def_var", "method_const", "method_var", "method_callee", "cls_attr", "cls_attr_other_module"):
+    for variant in ("ref", "lambda_call", "nested_def", "nested_def_var", "method_const", "method_var", "method_callee", "cls_attr", "cls_attr_other_module", "indent"):
         for pos in ("A", "main", "C"):
             p0 = base_program("pm%d" % k)
             k += 1
@@ -241,6 +244,9 @@ def matrix_cases(tier, seed, stores=("local",)):
                     p1 = gen.clone(p0)
                     p1["fns"][ids[pos]]["stmts"][-1]["const"] = 61
                     d = {"kind": "set_const", "fn": f["name"], "site": ["T", f["name"]]}
+            elif variant == "indent":
+                f["stmts"].append(gen.s_block(90))
+                p1, d = gen.e_toggle_indent(p0, ids[pos], len(f["stmts"]) - 1)
             elif variant in ("cls_attr", "cls_attr_other_module"):
                 # a class-level constant read through the class name, without creating an instance
                 cmod = mod if variant == "cls_attr" else p0["_ids"]["leaf"]
@@ -485,6 +491,10 @@ def random_program(rng, pkg, nfn=None, with_loads=False):
                 f["stmts"].append(gen.s_keep(new_path(), g, mk_args(True), layout=rng.choice(["one", "one", "multi", "multi2"]), path_style=rng.choice(["lit", "lit", "var", "pathlib"])))
             elif g not in kept_callees:
                 f["stmts"].append(gen.s_call(g, mk_args(True)))
+        if rng.random() < 0.2:
+            f["uses_builtins"] = True
+        if rng.random() < 0.15:
+            f["stmts"].append(gen.s_block(300 + i, inside=rng.random() < 0.5))
         if rng.random() < 0.15:
             # a class whose method is used by this function (optionally reading a variable / calling a leaf function)
             leafs = [g for g in fids if not p["fns"][g]["params"] and p["fns"][g]["data_path"] is None and not _has_keep_site(p, g) and g not in kept_callees and mods.index(p["fns"][g]["module"]) <= mi]
@@ -570,6 +580,9 @@ def random_edit(rng, p, tag):
     """One random edit of p (any kind)."""
     r = rng.random()
     fids = gen.reach(p, p["entry"])
+    blocks = [(fid, si) for fid in fids for si, st in enumerate(p["fns"][fid]["stmts"]) if st["k"] == "block"]
+    if blocks and 0.80 < r <= 0.86:
+        return gen.e_toggle_indent(p, *rng.choice(blocks))
     with_attr = sorted(c for c in p.get("classes", {}) if p["classes"][c].get("attr") is not None)
     if with_attr and 0.86 < r <= 0.92:
         return gen.e_set_cls_attr(p, rng.choice(with_attr))
@@ -639,7 +652,7 @@ PATH_SETS = [
 ]
 
 
-def path_program(pkg, paths, consts=None, skip=(), ret_str=True, aliases=()):
+def path_program(pkg, paths, consts=None, skip=(), ret_str=True, aliases=(), style=None):
     p = gen.new_program(pkg)
     m = gen.add_module(p, "pm")
     main = None
@@ -653,7 +666,7 @@ def path_program(pkg, paths, consts=None, skip=(), ret_str=True, aliases=()):
     for i, path in enumerate(paths):
         if i in skip:
             continue
-        p["fns"][main]["stmts"].append(gen.s_keep(path, fids[i], [gen.lit(str(i))], path_style=["lit", "var", "pathlib"][i % 3]))
+        p["fns"][main]["stmts"].append(gen.s_keep(path, fids[i], [gen.lit(str(i))], path_style=style or ["lit", "var", "pathlib"][i % 3]))
     # the same call kept under a second path (same signature, two paths committed by one evaluation)
     for (apath, i) in aliases:
         p["fns"][main]["stmts"].append(gen.s_keep(apath, fids[i], [gen.lit(str(i))]))
@@ -680,6 +693,19 @@ def path_shape_cases(tier, seed):
             else:
                 hist = history_restart([0, 1, 2, 3, 0]) if k % 2 else history_same_process([0, 1, 2, 3, 0], "reload")
             cases.append(_case("pathshape%d|%s" % (PATH_SETS.index(paths), store), versions, descs, hist, store))
+    # dds paths whose leading segments happen to be symbolic links on this machine's file system (/lib, /bin, /var/run ...):
+    # a dds path is a name inside the store, never a location on the local disk; kept through pathlib.Path, loaded by text
+    import os as _os
+
+    local_links = [d for d in ("/lib", "/bin", "/sbin", "/lib64", "/var/run", "/var/lock") if _os.path.islink(d)][:4] or ["/lib", "/bin"]
+    lpaths = [d + "/model%d" % i for i, d in enumerate(local_links)]
+    for store in stores:
+        pkg = "pl%d" % k
+        k += 1
+        versions = [path_program(pkg, lpaths, style="lit"), path_program(pkg, lpaths, consts={0: 900, 1: 901}, style="pathlib"), path_program(pkg, lpaths, consts={0: 950, 1: 951}, style="lit")]
+        descs = {(0, 1): {"kind": "set_const+pathlib_paths", "site": ["T"]}, (1, 2): {"kind": "set_const+literal_paths", "site": ["T"]}, (2, 0): {"kind": "revert", "site": ["T"]}}
+        hist = history_same_process([0, 1, 2, 0], "reload") if store == "memory" or k % 2 else history_restart([0, 1, 2, 0])
+        cases.append(_case("pathlocallinks|%s" % store, versions, descs, hist, store))
     # data functions whose path is a module variable: only the variable's value changes (function texts and names unchanged)
     for style in ("var", "pathlib"):
         for store in stores:
